@@ -397,7 +397,9 @@ impl ParserDefinition<LSt, u8, Tk, u8> for LayDef {
     fn grammar_order() -> bool { true }
 }
 
-/// bounded(one concrete input " x"; partial_parse and "STOP expected" symbolic)
+/// bounded(one concrete input " x"; partial_parse and "STOP expected" symbolic).
+/// NOT REGISTERED: measured -- timed out at 1500 s (the nested real driver, as in group D).  Seeds C02a and C12a, which
+/// need a layout parser to manifest, stay missed.  Kept for the record.
 #[kani::proof]
 #[kani::unwind(8)]
 #[kani::stub(crate::error::error_expected, stub_error_expected)]
